@@ -28,7 +28,9 @@ PARTIAL = [
 ]
 TRUSTED = ["binascii.a2b_base64/b2a_base64 of CPython 3.12 modelled by hand (Model/Base64.v), tied by ~10^4 correspondence cases",
            "pycoin Generator over toy curves is used as the implementation side of the group (pure-Python Curve.add/multiply)"]
-ASSUMPTIONS = ["GRS/GRSRT/TGRS cannot compute addresses in this sandbox (groestlcoin_hash absent): only their digest (hash_for_signing) is exercised",
+ASSUMPTIONS = ["the signature is a str (the model's text); the code also accepts bytes, where non-ASCII bytes are skipped by binascii instead of "
+               "rejected: covered by a direct totality check only",
+               "GRS/GRSRT/TGRS cannot compute addresses in this sandbox (groestlcoin_hash absent): only their digest (hash_for_signing) is exercised",
                "messages are valid Unicode (str.encode('utf8') succeeds); a lone surrogate in the message makes both sign_message and "
                "verify_message raise UnicodeEncodeError and is outside the property's domain",
                "strings shorter than 2^64 bytes (stream_satoshi_string)"]
@@ -428,6 +430,20 @@ def chk_total(sym, keyspec, text, msg, z):
     return None
 
 
+def chk_total_bytes(sym, hx, z):
+    """the code also accepts the signature as bytes (the test-suite does that): still a bool, never an exception"""
+    nw = net(sym)
+    k = _key(nw, 0xC0FFEE, True)
+    try:
+        r = nw.msg.verify(k, bytes.fromhex(hx), msg_hash=z)
+        r2 = nw.msg.verify(k.address(), bytes.fromhex(hx), "m")
+    except Exception as e:
+        return {"kind": "verify-raises", "detail": "%s: %s" % (type(e).__name__, str(e)[:100])}
+    if r not in (True, False) or r2 not in (True, False):
+        return {"kind": "verify-not-bool"}
+    return None
+
+
 def chk_recover_sound(sym, first, r, s, z):
     """whatever pair_for_message_hash returns satisfies the ECDSA verification equation; otherwise EncodingError"""
     nw = net(sym)
@@ -671,6 +687,7 @@ def prop_cases(rng, tier):
             addrs.append(nw.address.for_p2tr(b"\4" * 32))
         except Exception:
             pass
+        addrs = [a for a in addrs if isinstance(a, str)]       # networks without bech32 return None for segwit addresses
         for j, t in enumerate(texts):
             ks = ("key", 0xC0FFEE) if j % 3 else ("addr", addrs[j % len(addrs)])
             for (m, zz) in (("total", None), (None, z), (None, 0)):
@@ -683,6 +700,11 @@ def prop_cases(rng, tier):
             for ks in (("key", 0xC0FFEE), ("addr", k.address())):
                 yield PropCase("total", {"net": sym, "key": list(ks), "text": t, "msg": None, "z": str(zz), "why": "recovers infinity"},
                                (lambda sym=sym, ks=ks, t=t, zz=zz: chk_total(sym, ks, t, None, zz)))
+    good_b = net("BTC").msg.sign(_key(net("BTC"), 0xC0FFEE, True), "m").encode()
+    for i in range(60 if quick else 2000):
+        b = bytes(rng.getrandbits(8) for _ in range(rng.choice([0, 1, 3, 4, 87, 88, 89]))) if i % 2 else \
+            bytes(c if rng.random() < 0.97 else rng.getrandbits(8) for c in good_b)
+        yield PropCase("total_bytes", {"net": "BTC", "hex": b.hex(), "z": "5"}, (lambda b=b: chk_total_bytes("BTC", b.hex(), 5)))
     # 3. recovery soundness on the real curve, including recovery ids 2/3 (x = r + n) and out-of-range fields
     g = net("BTC").generator
     n, p = g.order(), g.p()
@@ -756,6 +778,8 @@ def replay_input(check, inp):
         return chk_address_kind(inp["net"], int(inp["d"]))
     if check == "recover_formula":
         return chk_recover_formula(inp["net"], int(inp["x"]), inp["parity"], int(inp["s"]), int(inp["z"]), inp["comp"])
+    if check == "total_bytes":
+        return chk_total_bytes(inp["net"], inp["hex"], int(inp["z"]))
     if check == "wild":
         return chk_wild(inp["i"])
     if check == "digest_spec":
